@@ -408,3 +408,16 @@ def required_version(n) -> int:
         for x in n:
             m = max(m, required_version(x))
     return m
+
+
+def rejected_by_design(n) -> bool:
+    """constructs the compiler deliberately refuses whatever the target: Substring with constant end < start"""
+    if isinstance(n, tuple):
+        if n and n[0] == "op" and n[1] == "Substring":
+            a, b = n[2][1], n[2][2]
+            if a[0] == "int" and b[0] == "int" and b[1] < a[1]:
+                return True
+        return any(rejected_by_design(x) for x in n if isinstance(x, (tuple, list)))
+    if isinstance(n, list):
+        return any(rejected_by_design(x) for x in n)
+    return False
